@@ -93,6 +93,14 @@ func verifPageObject(rng *rand.Rand, pages []verifPage, p int, ordered bool, lin
 	case rng.Intn(2) == 0:
 		obj[key] = nil /* "orderedItems": null - what a nil slice becomes in some servers: no items */
 	}
+	/* the key that does not belong to the kind (items on an ordered page, orderedItems on a plain one) holds nothing of the collection */
+	if rng.Intn(4) == 0 {
+		other := "orderedItems"
+		if ordered {
+			other = "items"
+		}
+		obj[other] = []any{fmt.Sprintf("p99i%d", p), "p99i0"}
+	}
 	/* totalItems is advisory: servers hide it, report 0, or let it go stale */
 	switch rng.Intn(5) {
 	case 0:
@@ -204,11 +212,18 @@ func verifRunPaging(out *verifkit.Trace, rng *rand.Rand, sim *verifsim.Sim, sid 
 					}
 					return map[string]any{"id": h.URL(aliasPath(q)), "type": pageKind}
 				}
-				switch rng.Intn(6) {
+				switch rng.Intn(7) {
 				case 0:
 					return map[string]any{"id": h.URL(pagePath(q)), "type": pageKind}
 				case 1:
 					return map[string]any{"id": h.URL(pagePath(q))}
+				case 2:
+					if style == 0 && q > 1 {
+						/* the page is named by an address that redirects to it with a Location relative to itself */
+						hop := fmt.Sprintf("/col%d/hop%d", sid, q)
+						h.Set(hop, &verifsim.Route{Raw: []byte(fmt.Sprintf("HTTP/1.1 302 Found\r\nLocation: page%d\r\n\r\n", q))})
+						return h.URL(hop)
+					}
 				}
 				return h.URL(pagePath(q))
 			}, func(q int) any { return h.URL(pagePath(q)) })
@@ -225,7 +240,24 @@ func verifRunPaging(out *verifkit.Trace, rng *rand.Rand, sim *verifsim.Sim, sid 
 			h.Set(fmt.Sprintf("/col%d/missing", sid), &verifsim.Route{Raw: []byte("HTTP/1.0 200 OK\r\nContent-Type: application/activity+json\r\n\r\n" +
 				`{"id":"` + h.URL(fmt.Sprintf("/col%d/missing", sid)) + `","type":"Note","content":"not a page"}`)})
 		}
-		root, err = NewCollection(h.URL(pagePath(1)), nil, verifConstructTag)
+		if style == 0 && sid%6 == 3 {
+			/* the collection itself comes without an id (as a document that was opened, or an anonymous first page), and names its
+			   next page by a stub that carries only the address and the type */
+			pageKind := "CollectionPage"
+			if ordered {
+				pageKind = "OrderedCollectionPage"
+			}
+			anon := verifPageObject(rng, in.Pages, 1, ordered, func(q int) any {
+				if q == -1 {
+					return h.URL(fmt.Sprintf("/col%d/missing", sid))
+				}
+				return map[string]any{"id": h.URL(pagePath(q)), "type": pageKind}
+			}, nil)
+			delete(anon, "id")
+			root, err = NewCollection(anon, nil, verifConstructTag)
+		} else {
+			root, err = NewCollection(h.URL(pagePath(1)), nil, verifConstructTag)
+		}
 	}
 	ev := verifkit.M{"ev": "paging", "sid": sid, "pages": pagesOut, "embedded": embedded, "ordered": ordered, "panic": false}
 	/* a session that does not finish is an observation too: the whole process is given up */
